@@ -6,14 +6,14 @@ from . import Gen, Result
 ID = 'C20'
 TITLE = 'Idle connections are reaped after the timeout and active ones never are'
 RULE = ('one run = 1-3 connections (CONNECT tunnel, keep-alive forward HTTP, built-in web route, half-received '
-        'request, silent connection, chatty tunnel with a client write every 10-20 ms for longer than timeout + bound) on one real executor (threadless) or one real handler thread each '
+        'request, silent connection, chatty tunnel with a client write every 10-20 ms for longer than timeout + bound, tunnel whose upstream drains an upload 64 bytes every 10-20 ms for longer than that and never answers) on one real executor (threadless) or one real handler thread each '
         '(threaded), flags.timeout drawn from {1,2,3,5,10}; peers never close on their own; every connection '
         'follows a timed trace of client writes, upstream writes and client read pauses with output pending, the '
         'gaps drawn just below / just above the threshold on the virtual clock; the simulator records the time '
         'of every recv/send the proxy performs on the client socket and the moment it ends the connection; '
         'non-trivial = some gap lies within 0.1 s of the threshold or a read pause with pending output exceeds '
         'the timeout; distinct = distinct event-log digests')
-PROBES = ['tunnel', 'keepalive', 'web', 'half_request', 'silent', 'chatty', 'threaded', 'gap_just_below', 'gap_just_above',
+PROBES = ['tunnel', 'keepalive', 'web', 'half_request', 'silent', 'chatty', 'slow_upstream', 'threaded', 'gap_just_below', 'gap_just_above',
           'pending_output_beyond_timeout', 'reaped', 'upstream_only_activity', 'multi_connection']
 COMPONENTS = {
     'real': ['proxy/http/handler.py (is_inactive, last_activity, threaded run loop)',
@@ -70,8 +70,11 @@ def run_one(tape: Any, cfg: Dict[str, Any], forbid: FrozenSet[str] = frozenset()
         nontrivial = False
         horizon = 0.0
         for k in range(nconn):
-            role = ['tunnel', 'keepalive', 'web', 'half_request', 'silent', 'chatty'][tape.weighted([4, 3, 2, 1, 1, 1], 'role')]
+            role = ['tunnel', 'keepalive', 'web', 'half_request', 'silent', 'chatty', 'slow_upstream'][
+                tape.weighted([4, 3, 2, 1, 1, 1, 1], 'role')]
             if role == 'chatty' and not g.note('chatty_neighbour'):
+                role = 'tunnel'
+            if role == 'slow_upstream' and not g.note('slow_upstream'):
                 role = 'tunnel'
             w.probe(role)
             ip = '10.0.1.%d' % (k + 1)
@@ -81,7 +84,7 @@ def run_one(tape: Any, cfg: Dict[str, Any], forbid: FrozenSet[str] = frozenset()
                                  'ended': None, 'gaps': []}
             script: List[Any] = [('at', t), ('connect',)] if t else [('connect',)]
             oscript: List[Any] = []
-            if role in ('tunnel', 'chatty'):
+            if role in ('tunnel', 'chatty', 'slow_upstream'):
                 req = b'CONNECT %s:443 HTTP/1.1\r\nHost: %s:443\r\n\r\n' % (ip.encode(), ip.encode())
                 script += [('send', req, 'burst'), ('wait_rx', lambda p: b'\r\n\r\n' in p.rx)]
             elif role == 'keepalive':
@@ -93,8 +96,20 @@ def run_one(tape: Any, cfg: Dict[str, Any], forbid: FrozenSet[str] = frozenset()
             elif role == 'half_request':
                 req = b'GET http://%s/x HTTP/1.1\r\nHost: %s\r\nX-A: 1\r\n' % (ip.encode(), ip.encode())
                 script += [('send', req, 'burst')]
-            nev = tape.draw(cfg['max_events'] + 1, 'nev') if role not in ('silent', 'chatty') else 0
+            nev = tape.draw(cfg['max_events'] + 1, 'nev') if role not in ('silent', 'chatty', 'slow_upstream') else 0
             t += 0.05
+            if role == 'slow_upstream':
+                # the client uploads a burst and falls silent; the upstream drains it 64 bytes at a time for longer than
+                # timeout + bound and never answers: events on the upstream side only, nothing moves on the client side
+                step = [0.01, 0.02][tape.draw(2, 'drainstep')]
+                ncyc = int((T + B + 1.5) / step)
+                script += [('send', b'u' * (64 * ncyc), 'burst')]
+                oscript += [('pause_read',)]
+                for i in range(ncyc):
+                    oscript += [('sleep', step), ('resume_read',),
+                                ('wait_rx', (lambda n: (lambda p: len(p.rx) >= n))(64 * (i + 1))), ('pause_read',)]
+                oscript += [('resume_read',)]
+                nontrivial = True
             if role == 'chatty':
                 # steady traffic at gaps below the select period for longer than timeout + bound: the worker's loop never
                 # sees an idle tick while this lasts, and idle neighbours must be reaped all the same
@@ -148,10 +163,13 @@ def run_one(tape: Any, cfg: Dict[str, Any], forbid: FrozenSet[str] = frozenset()
             script += [('wait_eof',), ('close',)]
             states.add(hash((role, threaded, T, tuple(classes))) & 0xffffffff)
             horizon = max(horizon, t)
-            if role in ('tunnel', 'chatty', 'keepalive', 'half_request'):
-                if role in ('tunnel', 'chatty'):
+            if role in ('tunnel', 'chatty', 'slow_upstream', 'keepalive', 'half_request'):
+                if role in ('tunnel', 'chatty', 'slow_upstream'):
                     osc = (lambda s: (lambda i: list(s) + [('wait_eof',), ('close',)]))(oscript)
-                    c['origin'] = Origin(w, ip, 443, osc, name='o%d' % k)
+                    if role == 'slow_upstream':
+                        c['origin'] = Origin(w, ip, 443, osc, name='o%d' % k, cap_in=64)
+                    else:
+                        c['origin'] = Origin(w, ip, 443, osc, name='o%d' % k)
                 else:
                     def responder(peer: Any, info: Dict[str, Any]) -> List[Any]:
                         return [('send', RESP, 'burst')]
@@ -206,7 +224,7 @@ def run_one(tape: Any, cfg: Dict[str, Any], forbid: FrozenSet[str] = frozenset()
                 return 0
             consumed = a.read_total      # what the proxy really read (bytes still queued, or discarded by close, do not count)
             sent = c['b'].tx_total
-            if c['role'] in ('tunnel', 'chatty'):
+            if c['role'] in ('tunnel', 'chatty', 'slow_upstream'):
                 ack = c.get('ack')
                 if ack is None:
                     i = bytes(c['client'].rx).find(b'\r\n\r\n')
